@@ -1,7 +1,7 @@
 """Mindustry (C07): how the generic property runners drive it."""
 
 FAMILY = dict(
-    name="mindustry", nargs=2, gen="mindustry", retries=1, port=0, decode_property="C07", entry="mindustry",
+    send_units=1, name="mindustry", nargs=2, gen="mindustry", retries=1, port=0, decode_property="C07", entry="mindustry",
     describe=("Mindustry discovery reply: 5 length-prefixed strings (0-255 bytes, 1-4 byte UTF-8), 4 big-endian i32 over the "
               "full range, all 5 game modes, optional trailing mode name present/absent, port given / defaulted (mindustry_dp)"),
 )
